@@ -103,12 +103,11 @@ def getAuditMsgType (s : Bytes) : Option Nat :=
   | .syntax => MsgType.getType s
 
 def parseNum (s : Bytes) : Option Nat :=
-  match s with
-  | 45 :: _ =>
+  if s.head? == some 45 then
     match parseIntGo s 0 32 with
     | .ok v => some (toU32 v)
     | _ => none
-  | _ =>
+  else
     match parseUintGo s 0 32 with
     | .ok v => some v.toNat
     | _ => none
@@ -160,42 +159,51 @@ def excludeOkFields : List Nat :=
 def eqOp : Nat := 0x40000000
 def neOp : Nat := 0x30000000
 
-/-- the value word (and side effects on strings / arch) of a filter, or none on error. -/
+/-- the value word of a filter of field `f` with operator code `opc` on the rule so far, together
+with the string to append to the buffer (string-valued fields) and the architecture it selects
+(arch filter); none on error. -/
+def filterValue (env : Env) (r : RuleData) (f opc : Nat) (rhs : Bytes) : Option (Nat × Option Bytes × Option Bytes) :=
+  if uidFields.contains f then (getUID env rhs).map (fun v => (v, none, none))
+  else if gidFields.contains f then (getGID env rhs).map (fun v => (v, none, none))
+  else if f == LA.Gen.RuleTables.exitField then
+    if r.flags != LA.Gen.RuleTables.exitFilter then none else (getExitCode rhs).map (fun c => (toU32 c, none, none))
+  else if f == LA.Gen.RuleTables.msgTypeField then
+    if r.flags != LA.Gen.RuleTables.userFilter && r.flags != LA.Gen.RuleTables.excludeFilter then none
+    else (getAuditMsgType rhs).map (fun v => (v, none, none))
+  else if stringFields.contains f then
+    if exitOnlyStringFields.contains f && r.flags != LA.Gen.RuleTables.exitFilter then none
+    else if f == LA.Gen.RuleTables.keyField && rhs.length > LA.Gen.RuleTables.maxKeyLength then none
+    else if rhs.length > LA.Gen.RuleTables.pathMax then none
+    else some (rhs.length, some rhs, none)
+  else if f == LA.Gen.RuleTables.archField then
+    if opc != eqOp && opc != neOp then none else
+    (getArch rhs).map (fun p => (p.2, none, some p.1))
+  else if f == LA.Gen.RuleTables.permField then
+    if r.flags != LA.Gen.RuleTables.exitFilter then none
+    else if opc != eqOp then none
+    else (getPerm rhs).map (fun v => (v, none, none))
+  else if f == LA.Gen.RuleTables.filetypeField then
+    if r.flags != LA.Gen.RuleTables.exitFilter then none else (getFiletype rhs).map (fun v => (v, none, none))
+  else if f == LA.Gen.RuleTables.inodeField then
+    if r.flags != LA.Gen.RuleTables.exitFilter then none
+    else if opc != eqOp && opc != neOp then none
+    else (parseNum rhs).map (fun v => (v, none, none))
+  else if f == LA.Gen.RuleTables.saddrFamField then
+    (parseNum rhs).bind (fun n => if n == 2 || n == 10 then some (n, none, none) else none)
+  else if [LA.Gen.RuleTables.devMajorField, LA.Gen.RuleTables.devMinorField, LA.Gen.RuleTables.successField, LA.Gen.RuleTables.ppidField].contains f then
+    if r.flags != LA.Gen.RuleTables.exitFilter then none else (parseNum rhs).map (fun v => (v, none, none))
+  else (parseNum rhs).map (fun v => (v, none, none))
+
+/-- addFilter: look up operator and field, apply the exclude-list restriction, compute the value
+and append the (field, value, operator) triple; none on error. -/
 def addFilter (env : Env) (r : RuleData) (lhs op rhs : Bytes) : Option RuleData :=
   match lookupB LA.Gen.RuleTables.operatorsTable op, lookupB LA.Gen.RuleTables.fieldsTable lhs with
   | some opc, some f =>
     if r.flags == LA.Gen.RuleTables.excludeFilter && !(excludeOkFields.contains f) then none else
-    let done (r : RuleData) (v : Nat) : Option RuleData :=
-      some { r with trips := r.trips ++ [(f, v, opc)] }
-    if uidFields.contains f then (getUID env rhs).bind (done r)
-    else if gidFields.contains f then (getGID env rhs).bind (done r)
-    else if f == LA.Gen.RuleTables.exitField then
-      if r.flags != LA.Gen.RuleTables.exitFilter then none else (getExitCode rhs).bind (fun c => done r (toU32 c))
-    else if f == LA.Gen.RuleTables.msgTypeField then
-      if r.flags != LA.Gen.RuleTables.userFilter && r.flags != LA.Gen.RuleTables.excludeFilter then none else (getAuditMsgType rhs).bind (done r)
-    else if stringFields.contains f then
-      if exitOnlyStringFields.contains f && r.flags != LA.Gen.RuleTables.exitFilter then none
-      else if f == LA.Gen.RuleTables.keyField && rhs.length > LA.Gen.RuleTables.maxKeyLength then none
-      else if rhs.length > LA.Gen.RuleTables.pathMax then none
-      else done { r with strings := r.strings ++ [rhs] } rhs.length
-    else if f == LA.Gen.RuleTables.archField then
-      if opc != eqOp && opc != neOp then none else
-      (getArch rhs).bind (fun p => done { r with arch := p.1 } p.2)
-    else if f == LA.Gen.RuleTables.permField then
-      if r.flags != LA.Gen.RuleTables.exitFilter then none
-      else if opc != eqOp then none
-      else (getPerm rhs).bind (done r)
-    else if f == LA.Gen.RuleTables.filetypeField then
-      if r.flags != LA.Gen.RuleTables.exitFilter then none else (getFiletype rhs).bind (done r)
-    else if f == LA.Gen.RuleTables.inodeField then
-      if r.flags != LA.Gen.RuleTables.exitFilter then none
-      else if opc != eqOp && opc != neOp then none
-      else (parseNum rhs).bind (done r)
-    else if f == LA.Gen.RuleTables.saddrFamField then
-      (parseNum rhs).bind (fun n => if n == 2 || n == 10 then done r n else none)
-    else if [LA.Gen.RuleTables.devMajorField, LA.Gen.RuleTables.devMinorField, LA.Gen.RuleTables.successField, LA.Gen.RuleTables.ppidField].contains f then
-      if r.flags != LA.Gen.RuleTables.exitFilter then none else (parseNum rhs).bind (done r)
-    else (parseNum rhs).bind (done r)
+    (filterValue env r f opc rhs).map (fun x =>
+      { r with trips := r.trips ++ [(f, x.1, opc)],
+               strings := match x.2.1 with | some s => r.strings ++ [s] | none => r.strings,
+               arch := match x.2.2 with | some a => a | none => r.arch })
   | _, _ => none
 
 def lookupComparison (l r : Nat) : Option Nat :=
